@@ -47,6 +47,12 @@ def resolve_global(ex, fname, name):
       return VPy('regex', pat)
   if name in GLOBAL_VALUES:
     return GLOBAL_VALUES[name](ex)
+  for n in ex.repo.tree[fname].body:      # module-level literal constants
+    if isinstance(n, ast.Assign) and len(n.targets) == 1 and \
+        isinstance(n.targets[0], ast.Name) and n.targets[0].id == name and \
+        isinstance(n.value, ast.Constant) and isinstance(n.value.value, (str, int, bool)) and \
+        name.isupper():
+      return ex.ex_Constant(n.value)
   if name in RECORD_CLASSES:
     return VPy('recclass', name)
   mods = ex.repo.module_functions(fname)
@@ -234,7 +240,15 @@ def _dunder(ex, obj, name):
   return None
 
 
+def _treeish(w):
+  from pyvc import tree
+  return tree.is_tree(w) or isinstance(w, (tree.VNode, tree.VNodeCopy))
+
+
 def contains(ex, coll, x, node):
+  if _treeish(coll):
+    from pyvc import tree
+    return tree.node_contains(ex, coll, x, node)
   m = _dunder(ex, coll, '__contains__')
   if m is not None:
     return ex.truth(ex.call(m, [x], {}, node), node)
@@ -245,6 +259,9 @@ def contains(ex, coll, x, node):
 
 
 def get_item(ex, obj, idx, node):
+  if _treeish(obj):
+    from pyvc import tree
+    return tree.node_getitem(ex, obj, idx, node)
   m = _dunder(ex, obj, '__getitem__')
   if m is not None:
     return ex.call(m, [idx], {}, node)
@@ -252,6 +269,10 @@ def get_item(ex, obj, idx, node):
 
 
 def set_item(ex, obj, idx, v, node):
+  if _treeish(obj):
+    from pyvc import tree
+    tree.node_setitem(ex, obj, idx, v, node)
+    return True
   m = _dunder(ex, obj, '__setitem__')
   if m is not None:
     ex.call(m, [idx, v], {}, node)
@@ -260,6 +281,9 @@ def set_item(ex, obj, idx, v, node):
 
 
 def len_of(ex, v, node):
+  if _treeish(v):
+    from pyvc import tree
+    return tree.node_len(ex, v, node)
   m = _dunder(ex, v, '__len__')
   if m is not None:
     return ex.call(m, [], {}, node)
